@@ -713,6 +713,27 @@ pub fn c04_hands(rng: &mut Rng, thorough: bool) -> Vec<(String, Vec<u32>)> {
             out.push(("arbitrary-words".into(), h));
         }
     }
+    // EVERY arrangement (with repetition) of a mini-deck of two ranks x four suits for n = 2..5 (and of one
+    // rank x four suits + a king for n = 6): duplicates with same-rank, same-suit and unrelated cards between them
+    let mini: Vec<u32> = (0..8).map(|k| deck[(k % 4) * 13 + k / 4]).collect(); // AS AH AD AC KS KH KD KC
+    for n in 2..=5usize {
+        let total = 8usize.pow(n as u32);
+        for t in 0..total {
+            let h: Vec<u32> = (0..n).map(|k| mini[(t / 8usize.pow(k as u32)) % 8]).collect();
+            out.push(("mini-deck-arrangement".into(), h));
+        }
+    }
+    let mini5: Vec<u32> = vec![deck[0], deck[13], deck[26], deck[39], deck[1]];
+    for t in 0..5usize.pow(6) {
+        let h: Vec<u32> = (0..6).map(|k| mini5[(t / 5usize.pow(k as u32)) % 5]).collect();
+        out.push(("mini-deck-arrangement".into(), h));
+    }
+    if thorough {
+        for t in 0..5usize.pow(7) {
+            let h: Vec<u32> = (0..7).map(|k| mini5[(t / 5usize.pow(k as u32)) % 5]).collect();
+            out.push(("mini-deck-arrangement".into(), h));
+        }
+    }
     if thorough {
         // every arrangement of the alphabet for n = 2, and of a reduced alphabet for n = 3, 4
         for &a in &alpha { for &b in &alpha { out.push(("all-arrangements-n2".into(), vec![a, b])); } }
@@ -2427,8 +2448,16 @@ fn sweep_sixseven(prop: &str, seed: u64, thorough: bool) -> Sweep {
     };
     let mut total = Sweep { exhaustive: thorough, ..Default::default() };
     // all six-card hands: a quarter in deck order, a quarter reversed, half in a per-hand seeded order
+    // slot orders a caller is likely to use (and a shortcut is likely to key on): deck order, reversed deck
+    // order, descending and ascending by card word (i.e. a sorted hand), and seeded shuffles
     let ordered = |h: &mut Vec<usize>, rng: &mut Rng| {
-        match rng.below(4) { 0 => {}, 1 => h.reverse(), _ => rng.shuffle(h) }
+        match rng.below(8) {
+            0 => {}
+            1 => h.reverse(),
+            2 | 3 => h.sort_unstable_by(|x, y| deck[*y].cmp(&deck[*x])),
+            4 => h.sort_unstable_by(|x, y| deck[*x].cmp(&deck[*y])),
+            _ => rng.shuffle(h),
+        }
     };
     let parts: Vec<Sweep> = par_ranges(47, 47, |lo, hi| {
         let mut s = Sweep::default();
@@ -2528,12 +2557,15 @@ fn sweep_sixseven(prop: &str, seed: u64, thorough: bool) -> Sweep {
         for k in lo..hi {
             rng.shuffle(&mut idx);
             let n = if k % 4 == 0 { 6 } else { 7 };
-            check(&idx[..n], &mut s);
+            let mut h = idx[..n].to_vec();
+            // half of the seeded hands are put into one of the "natural" orders, half stay shuffled
+            if k % 2 == 1 { ordered(&mut h, &mut rng); }
+            check(&h, &mut s);
         }
         s
     });
     for p in parts { total.merge(p); }
-    total.count("seeded six/seven-card hands in seeded slot orders", n_seeded);
+    total.count("seeded six/seven-card hands (half shuffled, half in deck / reversed / sorted orders)", n_seeded);
     total.nontrivial = total.evaluations;
     total.rule = match prop {
         "C02" => "value of every six-card hand (and seeded / all seven-card hands, seeded slot orders) against the minimum over its five-card subsets of the spec-derived strength ordinal; every hand is distinct and non-trivial",
